@@ -1049,9 +1049,18 @@ def gen_obs_cases(rng, whichs=('fully_transparent', 'partially_occluded', 'raytr
     from harness.corr_obs import rand_area
 
     while True:
-        s = gen.random_state(rng, max_h=5, max_w=5, p_floor=0.55)
         which = rng.choice(whichs)
         area = rand_area(rng, lim=lim, force_bottom=(which == 'partially_occluded'), contains_origin=(which in ('raytracing', 'stochastic_raytracing')))
+        if rng.random() < 0.3:
+            # boundary views: the agent in the first or last column (or row) of its view, in a world large
+            # enough to hold the whole view, with a varying density of walls
+            if rng.random() < 0.5:
+                area = Area((area.ymin, area.ymax), (0, max(area.xmax, 1)) if rng.random() < 0.5 else (min(area.xmin, -1), 0))
+            elif which != 'partially_occluded':
+                area = Area((0, max(area.ymax, 1)) if rng.random() < 0.5 else (min(area.ymin, -1), 0), (area.xmin, area.xmax))
+            s = gen.random_state(rng, min_h=3, min_w=3, max_h=6, max_w=6, p_floor=rng.choice((0.3, 0.45, 0.6, 0.75)), p_wall_border=0.2)
+        else:
+            s = gen.random_state(rng, max_h=5, max_w=5, p_floor=0.55)
         yield {'kind': 'obs', 'which': which, 'state': enc_state(s), 'area': [area.ymin, area.ymax, area.xmin, area.xmax], 'seed': rng.randrange(2**32)}
 
 
@@ -1226,10 +1235,38 @@ class C07(Oracle):
 class C06(Oracle):
     prop = 'C06'
 
+    #: opaque cell kinds used by the opacity patterns (a wall, a closed door, a locked door)
+    OPAQUE = ('W', 'D11', 'D22')
+
+    def _pattern_case(self, rng):
+        """an opacity pattern of a small view: the world IS the view (agent facing north at the point of
+        view), every cell either transparent or opaque, for every position of the agent in the view
+        (first/last column and row included).  Sampled uniformly from all (shape, point of view, pattern)
+        with at most 12 cells; the thorough tier draws enough to cover most of that space."""
+        which = rng.choice(('partially_occluded', 'raytracing'))
+        while True:
+            H, W = rng.randint(1, 4), rng.randint(1, 4)
+            if H * W <= 12:
+                break
+        py = H - 1 if which == 'partially_occluded' else rng.randrange(H)
+        px = rng.randrange(W)
+        bits = rng.getrandbits(H * W)
+        if rng.random() < 0.3:
+            bits |= rng.getrandbits(H * W)  # denser walls
+        cells = {}
+        for i in range(H):
+            for j in range(W):
+                if (bits >> (i * W + j)) & 1 and (i, j) != (py, px):
+                    cells[(i, j)] = rng.choice(self.OPAQUE)
+                elif rng.random() < 0.15:
+                    cells[(i, j)] = rng.choice(('K1', 'E0', 'D03', 'T2'))
+        s = gen.mk_state(H, W, cells, py, px, gen.ORIENTS[0])
+        return {'kind': 'obs', 'which': which, 'state': enc_state(s), 'area': [-py, H - 1 - py, -px, W - 1 - px], 'seed': 0, 'pattern': True}
+
     def gen(self, rng):
         g0 = gen_obs_cases(rng, whichs=('partially_occluded', 'raytracing', 'stochastic_raytracing'))
         while True:
-            c = next(g0)
+            c = self._pattern_case(rng) if rng.random() < 0.3 else next(g0)
             c['pick'] = rng.randrange(10**6)
             c['repl'] = rng.choice(gen.ALPHABET_FULL)
             yield c
@@ -1281,11 +1318,15 @@ class C06(Oracle):
                             if isinstance(o.grid[i, j], Hidden):
                                 out.append(V('stochastic_raytracing/hides-always-lit-cell', f'{c} cell {(i, j)} ({name})'))
             return out
+        pov = Position(-area.ymin, -area.xmin)
         try:
             o = real_obs(which, s, area)
         except (NotImplementedError, ValueError):
             return out
-        pov = Position(-area.ymin, -area.xmin)
+        except Exception as e:
+            if not (0 <= pov.y < H and 0 <= pov.x < W):
+                return out  # the agent is outside its own view: the property says nothing
+            return [V(f'{which}/raises', f'{type(e).__name__}: {e} {c}')]
         if not (0 <= pov.y < H and 0 <= pov.x < W):
             return out
         vis = [[not isinstance(o.grid[i, j], Hidden) for j in range(W)] for i in range(H)]
